@@ -1066,6 +1066,16 @@ class Interp(object):
                     idx.items[0].const == 1 and idx.items[1] is None and idx.items[2] is None and isinstance(v.parts, tuple) and \
                     v.parts[0] == "ap-tail" and v.parts[1] == arr.parts[1]:
                 ap = ("ap", arr.parts[1], arr.parts[2], v.parts[2])          # x[1:] = (its own tail, shifted)
+            elif idx.kind == K_SLICE and idx.items is not None and idx.items[1] is None and idx.items[2] is None and \
+                    (idx.items[0] is None or (idx.items[0].has_const() and idx.items[0].const == 0)) and isinstance(v.parts, tuple) and \
+                    v.parts and v.parts[0] == "ap":
+                ap = v.parts                                                   # x[0:] = (the whole progression, shifted): every element replaced
+            elif idx.kind == K_SLICE and idx.items is not None and idx.items[0] is not None and idx.items[0].has_const() and \
+                    isinstance(v.parts, tuple) and v.parts and v.parts[0] == "ap-tail-k" and idx.items[0].const == v.parts[1] and \
+                    idx.items[1] is None and idx.items[2] is None and v.parts[2] == arr.parts[1]:
+                # x[k:] = (its own elements from k on, shifted) with k >= 2: the same progression when the shift is 0, otherwise a progression
+                # broken at k (elements 1..k-1 keep the old offset): recorded as such, a definite shape
+                ap = arr.parts if v.parts[3] == arr.parts[3] else ("ap-broken", v.parts[1], arr.parts[1], arr.parts[2], arr.parts[3], v.parts[3])
             elif idx.kind == K_SCALAR and idx.has_const() and idx.const == 0 and v.has_const() and isinstance(v.const, (int, float)) and \
                     not isinstance(v.const, bool):
                 ap = ("ap", arr.parts[1], v.const, arr.parts[3])             # x[0] = c
@@ -1074,6 +1084,10 @@ class Interp(object):
                     idx.items[1].has_const() and idx.items[1].const == 1 and not isinstance(idx.items[1].const, bool) and v.shape == () and \
                     v.has_const() and isinstance(v.const, (int, float)) and not isinstance(v.const, bool):
                 ap = ("ap", arr.parts[1], v.const, arr.parts[3])             # x[:1] = c  (the same element)
+        if ap is None and isinstance(arr.parts, tuple) and arr.parts and arr.parts[0] == "non-ap" and idx is not None and idx.kind == K_SLICE and \
+                idx.items is not None and idx.items[0] is not None and idx.items[0].has_const() and isinstance(idx.items[0].const, int) and \
+                idx.items[0].const >= 1:
+            ap = arr.parts          # element 0 (c / b of the progression's first element) is not touched by a store from position >= 1 on
         if ap is None and isinstance(arr.parts, tuple) and arr.parts and arr.parts[0] == "pconst" and idx is not None:
             ap = pconst_store()
         # an uninitialised 1-D buffer filled piece by piece: x[0] = a; x[1:-1] = middle; x[-1] = b  (each region once, nothing else) is
